@@ -94,7 +94,7 @@ def myst_load(b, sizes=None):
 # ------------------------------------------------------------------------------------------- generators
 
 NAMES = ["foo", "mod", "mod.func", "a b c", "with  two", "Ünï.cödé", "日本語", "x$", "$", "a-b", "A", "a", "name:colon", "-", "1", "tab\tname", "em—dash", "😀.emoji", "q?*[]", "very." * 6 + "long"]
-TYPES = ["py:function", "py:module", "py:class", "std:label", "std:term", "std:doc", "c:macro", "rst:directive:option", "js:data", "std:cmdoption"]
+TYPES = ["py:function", "py:module", "py:class", "std:label", "std:term", "std:doc", "c:macro", "rst:directive:option", "js:data", "std:cmdoption", "js:module", "std:module", "f:module", "py:module:x", "x:py:module"]
 LOCS = ["api.html#$", "x.html", "dir/p.html#$", "$", "", "i.html#a-b", "ü.html#$", "p.html#sec tion".replace(" ", "%20")]
 DISP = ["-", "-", "Title", "Title With Spaces", "Ünï Títle", "x  y", "-x", "$"]
 
@@ -112,6 +112,12 @@ def gen_table(R, n=None):
         m = R.choice(NAMES)
         rows.append((m, "py:module", "0", "first.html#module-$", "-"))
         rows.insert(R.randint(0, len(rows)), (m, "py:module", "0", "second.html", "-"))
+    if R.random() < 0.35:
+        # the duplicate rule is about py:module only: other '<domain>:module' / '...module...' types keep Sphinx' ordinary behaviour
+        m = R.choice(NAMES)
+        ty = R.choice(["js:module", "std:module", "f:module", "py:module:x", "x:py:module", "py:class"])
+        rows.append((m, ty, "0", "first.html#module-$", "-"))
+        rows.insert(R.randint(0, len(rows)), (m, ty, "0", "second.html", "Other title"))
     return rows
 
 
